@@ -23,7 +23,10 @@ RULE = ("a case is one branching history over vectors, lists, queues, maps, sets
         "of length 3 + 1000 random histories of length <= 25 + 20 on collections of 33..73 elements; "
         "thorough: all sequences of length <= 3, 30000 sampled of length 4-5, 20000 random, 3000 of length "
         "<= 60 on collections of 33..73 elements (pyrsistent's 32-wide nodes and the vector tail "
-        "are crossed). Every result is observed when produced and re-read after the whole history; "
+        "are crossed). Random histories never turn the library's iteration order of a map or set of "
+        ">= 2 elements into positions ((into [] m), merge of a 2-element set): the executable "
+        "instance of the model iterates in insertion order; (seq m) is kept. "
+        "Every result is observed when produced and re-read after the whole history; "
         "transients are read through persistent! at the end. A case is non-trivial when at least "
         "two operations return collections; distinct = distinct JSON encoding.")
 TRUSTED = [
@@ -635,14 +638,49 @@ def random_history(rng, length, big=0):
                     ["conj!", t, val], ["assoc!", t, key, val], ["dissoc!", t, key], ["disj!", t, key], ["pop!", t],
                     ["update", t, key], ["merge", t, o], ["into", t, o], ["into", o, t], ["wm", t, 3], ["seq", t]]
         op = rng.choice(menu)
-        # enumerating a map or set of several elements into an ordered collection depends on
-        # the library's iteration order, which the list instance of the model does not share
-        if op[0] in ("into", "merge") and sh.usable(op[2]) and sh.kind(op[2]) in ("M", "S") \
-                and sh.size(op[2]) > 1 and (op[0] == "merge" or k in ("V", "L", "Q", "N")):
-            if not (op[0] == "merge" and sh.kind(op[2]) == "M"):
-                op = ["count", t]
+        if order_exposing(sh, op):
+            op = ["count", t]
         emit(op)
     return {"ops": ops}
+
+
+def _entry_keys_collide(items):
+    """do two of these elements, read as map entries [k v], have the same key?"""
+    keys = [x[0] for x in items if isinstance(x, tuple) and len(x) == 2 and not isinstance(x[0], str)]
+    return any(a == b for i, a in enumerate(keys) for b in keys[i + 1:])
+
+
+def order_exposing(sh, op):
+    """Does `op` turn the order in which the library iterates a map or set of >= 2 elements into
+    something the comparison with the model sees exactly (the position of an element in a vector,
+    list or queue, or which of two entries with the same key wins)?
+
+    The theorems hold for every `Libs`, and the laws fix the iteration of a map only up to
+    `Permutation`; the executable instance the correspondence runs (`ListLibs`) iterates in
+    insertion order, immutables' HAMT by hash bits ((into [] {0 :a 32 :b 1 :c}) is
+    [[0 :a] [32 :b] [1 :c]]).  On such an operation the list instance predicts ONE of the
+    permutations the model allows and the implementation takes another: bit 1 of the verdict would
+    be set although the code behaves as modelled, and a known finding elsewhere in the same history
+    would then be reported as a VIOLATION (known needs impl = model).  The specification is not
+    concerned (it uses the observed order; (seq m) is checked exactly against the order m was
+    observed in).  The decision is taken on the operands the operation really has (op[1] = `to`,
+    op[2] = `from`), whichever menu the operation came from."""
+    if op[0] not in ("into", "merge"):
+        return False
+    # a result the shadow does not follow (a read: meta, peek, get ...) is either nil -- the worker
+    # and the model accept every nil result as an operand -- or a bad reference
+    k1, k2 = (sh.kind(i) if sh.usable(i) else "N" for i in (op[1], op[2]))
+    if op[0] == "into":
+        if k2 not in ("M", "S") or sh.size(op[2]) < 2:
+            return False
+        if k1 in ("V", "L", "Q", "N"):
+            return True                       # positions
+        if k1 == "M" and k2 == "S":           # set elements conj'ed as entries: the later one wins
+            return _entry_keys_collide(list(sh.slots[op[2]][1].keys()))
+        return False                          # into a set, map into map (distinct keys): a multiset
+    # merge: a two-element collection is read as ONE entry [k v] in iteration order (>= 2: the
+    # shadow's sizes are only a guide)
+    return any(sh.kind(i) == "S" and sh.size(i) >= 2 for i in (op[1], op[2]))
 
 
 def cases(tier, rng):
@@ -701,6 +739,37 @@ def shrink(c):
             yield {"ops": new}
 
 
+def observed_order_exposing(case, out):
+    """the exact counterpart of `order_exposing`, decided on what the implementation returned
+    (kinds and sizes of the operands as observed) instead of the shadow's guess; evidence only"""
+    obs = out.get("obs", [])
+
+    def kind(i):
+        ob = obs[i]
+        if ob == {"v": None}:
+            return "N", []
+        return (ob["c"][0], ob["c"][1]) if "c" in ob else (None, [])
+
+    hits = []
+    for i, op in enumerate(case["ops"][:len(obs)]):
+        if op[0] not in ("into", "merge") or not all(isinstance(x, int) and 0 <= x < i for x in op[1:3]):
+            continue
+        (k1, c1), (k2, c2) = kind(op[1]), kind(op[2])
+        if k1 is None or k2 is None:
+            continue
+        if op[0] == "merge":
+            if (k1 == "S" and len(c1) == 2) or (k2 == "S" and len(c2) == 2):
+                hits.append(i)
+        elif k2 in ("M", "S") and len(c2) >= 2:
+            if k1 in ("V", "L", "Q", "N"):
+                hits.append(i)
+            elif k1 == "M" and k2 == "S":
+                ks = [to_py(x[0]) for x in c2 if isinstance(x, list) and len(x) == 2]
+                if any(a == b for n, a in enumerate(ks) for b in ks[n + 1:]):
+                    hits.append(i)
+    return hits
+
+
 def extra_evidence(cases_, outs):
     dist, kinds, errs, lens = {}, {}, 0, {}
     for c, o in zip(cases_, outs):
@@ -713,5 +782,8 @@ def extra_evidence(cases_, outs):
             if "e" in ob:
                 errs += 1
     big = sum(1 for o in outs for ob in o.get("obs", []) if "c" in ob and len(ob["c"][1]) >= 33)
+    exposing = sum(1 for c, o in zip(cases_, outs) if observed_order_exposing(c, o))
     return {"operation_distribution": dist, "collection_results_by_kind": kinds, "exception_results": errs,
-            "history_length_histogram": lens, "observations_with_33_or_more_elements": big}
+            "history_length_histogram": lens, "observations_with_33_or_more_elements": big,
+            # must stay 0: such a history makes the list instance of the model guess an iteration order
+            "histories_with_an_order_exposing_operation": exposing}
